@@ -205,49 +205,89 @@ def run(ctx):
                'the collusion heuristic is given the whole trusted set: %s%s' % (okin, (' — ' + why) if why else ''))
     # ---- ratio shape, normal
     if 'normal' in modes:
-        b, bi, th, e = modes['normal']
-        place = None
-        for bj, sj, s in b.stmts():
-            if s['r']['k'] == 'use' and 'p' in s['r']['o'] and str(s['r']['o']['p'][-1]).endswith('::weighted_confirmation') and bj == bi:
-                place = s['r']['o']['p']
-        num_l = den_l = None
-
-        def root_local(l, depth=6):
-            """follow plain copies `_t = _x` back to a user variable"""
-            while depth > 0 and b.local_name(l) is None:
-                sd = b.single_def(l)
-                if sd is None or sd[0] != 's' or sd[3]['r']['k'] != 'use' or 'p' not in sd[3]['r']['o'] or len(sd[3]['r']['o']['p']) != 1:
-                    break
-                l = sd[3]['r']['o']['p'][0]
-                depth -= 1
-            return l
-
-        # the value stored into weighted_confirmation: a temp with a Div definition (guarded arm)
+        b0, bi0, th, e = modes['normal']
+        # the verdict body with its private helpers spliced in (a tally struct / accumulate helper changes nothing)
+        b = prog.inl(b0.root)
+        wtag = None
         stored = set()
         for bj, sj, s in b.stmts():
-            if place and s['d'] == place and 'p' in s['r'].get('o', {}):
+            if s['r']['k'] == 'use' and 'p' in s['r']['o'] and str(s['r']['o']['p'][-1]).endswith('::weighted_confirmation'):
+                wtag = s['r']['o']['p'][-1]
+        for bj, sj, s in b.stmts():
+            if wtag and s['d'][-1:] == [wtag] and 'p' in s['r'].get('o', {}):
                 stored.add(s['r']['o']['p'][0])
+
+        def acc_key(pl, depth=8):
+            """the accumulator behind an operand place: (local, None) for a plain local (through copies), (local, field) for a
+            field of a struct local that is updated in place (`tally.total += w`), following moves of the struct"""
+            l = pl[0]
+            rest = [p for p in pl[1:] if p != '*']
+            while depth > 0:
+                depth -= 1
+                if not rest:
+                    sd = b.single_def(l)
+                    if b.local_name(l) is None and sd is not None and sd[0] == 's' and sd[3]['r']['k'] == 'use' and 'p' in sd[3]['r']['o']:
+                        npl = sd[3]['r']['o']['p']
+                        l, rest = npl[0], [p for p in npl[1:] if p != '*'] + rest
+                        continue
+                    return (l, None)
+                fname = rest[0].rsplit('::', 1)[-1]
+                # follow whole-struct moves back to the local the struct was built / updated in
+                holder = l
+                moved = True
+                hops = 0
+                while moved and hops < 8:
+                    moved = False
+                    hops += 1
+                    ds = [d for d in b.defs().get(holder, []) if d[0] == 's']
+                    uses = [d for d in ds if d[3]['r']['k'] == 'use' and 'p' in d[3]['r']['o'] and len(d[3]['r']['o']['p']) == 1]
+                    if ds and len(uses) == len(ds) and len(set(d[3]['r']['o']['p'][0] for d in uses)) == 1:
+                        holder = uses[0][3]['r']['o']['p'][0]
+                        moved = True
+                aggs = [d for d in b.defs().get(holder, []) if d[0] == 's' and d[3]['r']['k'] == 'agg']
+                if aggs and len(rest) == 1:
+                    r = aggs[0][3]['r']
+                    op = None
+                    if r.get('fields') and fname in r['fields']:
+                        op = r['ops'][r['fields'].index(fname)]
+                    elif r.get('ak') == 'tuple' and fname.isdigit() and int(fname) < len(r['ops']):
+                        op = r['ops'][int(fname)]
+                    if op is not None and 'p' in op:
+                        l, rest = op['p'][0], [p for p in op['p'][1:] if p != '*']
+                        continue
+                    return (holder, fname)
+                return (holder, fname)
+            return (l, None)
+        num_l = den_l = None
         for bj, sj, s in b.stmts():
             if s['r']['k'] == 'bin' and s['r']['op'] == 'Div' and len(s['d']) == 1 and s['d'][0] in stored:
                 a_, c_ = s['r']['a'], s['r']['b']
                 if 'p' in a_ and 'p' in c_:
-                    num_l, den_l = root_local(a_['p'][0]), root_local(c_['p'][0])
+                    num_l, den_l = acc_key(a_['p']), acc_key(c_['p'])
         okn = False
         detail = 'numerator/denominator accumulators not found'
-        if num_l is not None and den_l is not None:
-            def adds(l):
+        if num_l is not None and den_l is not None and num_l != den_l:
+            def adds(key):
+                l, fld = key
                 out = []
-                for d in b.defs().get(l, []):
-                    if d[0] == 's':
-                        ve = F.Expr.of_rvalue(b, d[3]['r'], 6)
-                        if ve.k == 'bin' and ve.a == 'Add':
-                            out.append((d[1], ve))
+                if fld is None:
+                    for d in b.defs().get(l, []):
+                        if d[0] == 's':
+                            ve = F.Expr.of_rvalue(b, d[3]['r'], 6)
+                            if ve.k == 'bin' and ve.a == 'Add':
+                                out.append((d[1], ve))
+                else:
+                    for bj_, sj_, s_ in b.stmts():
+                        d_ = s_['d']
+                        if d_[0] == l and len(d_) > 1 and str(d_[-1]).rsplit('::', 1)[-1] == fld:
+                            ve = F.Expr.of_rvalue(b, s_['r'], 6)
+                            if ve.k == 'bin' and ve.a == 'Add':
+                                out.append((bj_, ve))
                 return out
             na, da = adds(num_l), adds(den_l)
             num_g = bool(na) and all(any(c.kind == 'bool' and c.truth and c.expr.show().endswith('confirms_membership') for c in F.dominating_conds(b, bb)) for bb, _ in na)
             den_all = bool(da) and not any(any(c.kind == 'bool' and c.expr.show().endswith('confirms_membership') for c in F.dominating_conds(b, bb)) for bb, _ in da)
             same_w = bool(na) and bool(da) and na[0][1].c.strip().show() == da[0][1].c.strip().show()
-            uo = da[0][1].c.mentions_call(r'Option::<.*>::unwrap_or$') if da else None
             okn = num_g and den_all and same_w
             detail = 'numerator += weight only when confirms_membership: %s; denominator += weight for every response: %s; same weight (%s): %s' % (
                 num_g, den_all, da[0][1].c.brief(60) if da else '?', same_w)
@@ -263,23 +303,18 @@ def run(ctx):
         c0 = cs[0]
         conds = F.dominating_conds(vm, c0.bb)
         minresp = any(L.cmp_is(c, L.has('len(', 'responses'), 'Ge', L.ends('.config.min_peers_to_query')) for c in conds)
-        trust = None
-        for c in conds:
-            if c.kind == 'bool' and not c.truth and c.expr.mentions_call(r'Option::<.*>::is_some_and$') is not None:
-                trust = c
+        # the candidate-trust gate, in any spelling (is_some_and / match with a guard / if let + comparison): some branch edge
+        # from which the verdict call is no longer reachable is taken exactly when `trust < min_witness_trust` is known true
         trust_ok = False
-        if trust is not None:
-            m = trust.expr.mentions_call(r'Option::<.*>::is_some_and$')
-            clos = [x for x in m.walk() if x.k == 'agg' and x.d == 'closure']
-            if clos and clos[0].a in prog.bodies:
-                cb = prog.bodies[clos[0].a]
-                for d in cb.defs().get(0, []):
-                    if d[0] == 's':
-                        ce = F.Expr.of_rvalue(cb, d[3]['r'], 20)
-                        if ce.k == 'bin' and ce.a == 'Lt' and ce.c.strip().show().endswith('.config.min_witness_trust'):
-                            trust_ok = True
-                        if ce.k == 'bin' and ce.a == 'Gt' and ce.b.strip().show().endswith('.config.min_witness_trust'):
-                            trust_ok = True
+        for n_, e_ in vm.edge_nodes().items():
+            if c0.bb in vm.reachable_from([n_]):
+                continue
+            # a gate on the way to the verdict: the test's other outcome leads to the verdict call
+            if not any(c0.bb in vm.reachable_from([n2_]) for n2_, e2_ in vm.edges_of(e_[0]) if n2_ != n_):
+                continue
+            for _b, at in L.true_atoms(prog, vm, n_):
+                if L.atom_is_cmp(at, lambda ee: True, 'Lt', L.ends('.config.min_witness_trust')):
+                    trust_ok = True
         mode = [c for c in conds if c.kind == 'bool' and c.expr.mentions_call(r'::is_attack_mode$') is not None]
         mode_ok = bool(mode) and mode[0].truth == (name == 'bft')
         ctx.ob('GATE', 'membership:%s:min-responses' % name, minresp, c0.where(), 'the %s verdict runs only with responses.len() >= min_peers_to_query: %s' % (name, minresp))
